@@ -2,6 +2,7 @@
    the real generator wrote (three consecutive runs), and the property's own sentence evaluated on what was
    observed (compiles, same on every run, DeepCopy(nil) = nil, deep equality, original unchanged). *)
 Require Export Gengo.Base.Bytes Gengo.Model.DeepCopy.
+Require Import Gengo.Proofs.DeepCopyTop.
 
 (* what one run of the real generator left behind *)
 Inductive gobs :=
@@ -76,7 +77,9 @@ Definition model_run_fx (fx : fixes) (c : case) (k : nat) : gobs :=
 Definition mismatch_fx (fx : fixes) (c : case) : bool :=
   negb (list_eqb gobs_eqb (map (model_run_fx fx c) [0; 1; 2]%nat) (c_runs c)).
 
-Definition mismatch (c : case) : bool := mismatch_fx cur_fixes c.
+(* model vs implementation; and the theorems' hypothesis on the type graph ([dom], through its sound checker)
+   holds for the generated case — an input outside it would make the proved statements vacuous for that case *)
+Definition mismatch (c : case) : bool := mismatch_fx cur_fixes c || negb (dom_b (c_pkg c)).
 
 (* the property, as a predicate on what the implementation did *)
 Definition root_ok (r : rootobs) : bool :=
